@@ -63,7 +63,7 @@ def run_c01(tier):
     jobs = []
     for r in range(reps):
         for c in cases:
-            jobs.append({'kind': 'verify', 'case': dict(c, id='v-%d' % len(jobs), seed=seed * 1000003 + len(jobs))})
+            jobs.append({'kind': 'verify', 'case': dict(c, id='v-%d' % len(jobs), seed=vlib.jseed(seed, len(jobs)))})
     for k in range(4 if tier == 'quick' else 300):
         jobs.append({'kind': 'verify-sweep', 'seed': seed * 7919 + k})
     execute(ck, 'C01', jobs)
@@ -93,7 +93,7 @@ def run_c02(tier):
         raise vlib.Undecided('negative control (offset bookkeeping) not detected')
     ck.cov['negative_controls'] = 1
     cases = tlc_cases(res.out)
-    jobs = [{'kind': 'aggverify', 'seed': seed * 1000003 + i, 'case': c} for i, c in enumerate(cases)]
+    jobs = [{'kind': 'aggverify', 'seed': vlib.jseed(seed, i), 'case': c} for i, c in enumerate(cases)]
     for k in range(2 if tier == 'quick' else 10):
         jobs.append({'kind': 'aggverify-args', 'seed': seed * 31 + k, 'case': {}})
         jobs.append({'kind': 'aggverify-large', 'seed': seed * 37 + k, 'case': {}})
@@ -147,7 +147,7 @@ def run_c03(tier):
             continue
         if tier == 'thorough' and len(cs['inp']) == 7 and (i + seed) % 4 != 0:
             continue
-        jobs.append({'kind': 'batch', 'seed': seed * 1000003 + i, 'case': cs})
+        jobs.append({'kind': 'batch', 'seed': vlib.jseed(seed, i), 'case': cs})
     for k in range(1 if tier == 'quick' else 8):
         jobs.append({'kind': 'batch-extra', 'seed': seed * 41 + k, 'case': {}})
     execute(ck, 'C03', jobs)
@@ -175,7 +175,7 @@ def run_c04(tier):
     ck.add_states(res, 'every key sequence of length <= %d over {x1, x2, -x1, x3} with every cut A|B' % c['MaxLen'])
     cases = tlc_cases(res.out)
     reps = 1 if tier == 'quick' else 4
-    jobs = [{'kind': 'aggregation', 'seed': seed * 1000003 + i + r * 7919, 'case': cs} for r in range(reps) for i, cs in enumerate(cases)]
+    jobs = [{'kind': 'aggregation', 'seed': vlib.jseed(seed, i, r), 'case': cs} for r in range(reps) for i, cs in enumerate(cases)]
     execute(ck, 'C04', jobs)
     for cs in cases:
         ck.case(vlib.digest([cs['keys'], cs['cut']]), len(cs['keys']) > 1)
@@ -203,7 +203,7 @@ def run_c05(tier):
     ck.cov['negative_controls'] = 1
     cases = tlc_cases(res.out)
     reps = 2 if tier == 'quick' else 60
-    jobs = [{'kind': 'serial', 'seed': seed * 1000003 + i + 7919 * r, 'case': cs} for r in range(reps) for i, cs in enumerate(cases)]
+    jobs = [{'kind': 'serial', 'seed': vlib.jseed(seed, i, r), 'case': cs} for r in range(reps) for i, cs in enumerate(cases)]
     jobs.append({'kind': 'serial-zcash', 'seed': seed, 'case': {}})
     for k in range(1 if tier == 'quick' else 20):
         jobs.append({'kind': 'serial-extra', 'seed': seed * 43 + k, 'case': {}})
@@ -248,7 +248,7 @@ def run_c16(tier):
                     for k in range(0, len(tags), 100):      # every tag, in parallel slices
                         jobs.append({'kind': 'pop', 'seed': seed + k, 'case': {'tags': tags[k:k + 100]}})
                 continue
-            jobs.append({'kind': 'pop', 'seed': seed * 1000003 + i + 7919 * r, 'case': cs})
+            jobs.append({'kind': 'pop', 'seed': vlib.jseed(seed, i, r), 'case': cs})
     execute(ck, 'C16', jobs)
     for cs in cases:
         if 'tags' not in cs:
@@ -278,7 +278,7 @@ def run_c17(tier):
     ck.cov['negative_controls'] = 1
     cases = tlc_cases(res.out)
     reps = 1 if tier == 'quick' else 30
-    jobs = [{'kind': 'spock', 'seed': seed * 1000003 + i + 7919 * r, 'case': cs} for r in range(reps) for i, cs in enumerate(cases)]
+    jobs = [{'kind': 'spock', 'seed': vlib.jseed(seed, i, r), 'case': cs} for r in range(reps) for i, cs in enumerate(cases)]
     execute(ck, 'C17', jobs)
     for cs in cases:
         ck.case(vlib.digest([cs['k1'], cs['p1'], cs['k2'], cs['p2']]), not (cs['p1'] == 'honest' and cs['p2'] == 'honest'))
